@@ -74,18 +74,18 @@ theorem step_readRest (C : Codecs) (s : UState) (b : Blk) (f : String)
 theorem step_readSub (C : Codecs) (s : UState) (b : Blk) (f typ : String) (win : Option Nat)
     (pre mid post : Bytes) (v : Tup) (hblk : s.blk b = pre ++ (mid ++ post)) (hoff : s.offset = pre.length)
     (hwin : ∀ n, win = some n → n = mid.length)
-    (hdec : ∀ suffix, C.dec typ (mid ++ suffix) = .ok (v, mid.length)) :
+    (hdec : ∀ suffix, suffix = [] ∨ win = none → C.dec typ (mid ++ suffix) = .ok (v, mid.length)) :
     runUStmt C s (.readSub b f typ win false true true) =
       .next { s with env := s.env.set f (.t v), bytesRead := mid.length } := by
   simp only [runUStmt]
   cases win with
   | none =>
     have hs : sliceFrom (s.blk b) s.offset = .ok (mid ++ post) := by rw [hblk, hoff, sliceFrom_mid]
-    simp only [Bool.false_eq_true, if_false, hs, hdec, if_true]
+    simp only [Bool.false_eq_true, if_false, hs, hdec post (Or.inr rfl), if_true]
   | some n =>
     have hs : sliceC (s.blk b) (s.ext b) s.offset (s.offset + n) = .ok mid := by
       rw [hblk, hoff]; exact sliceC_mid pre mid post _ n (hwin n rfl)
-    have := hdec []
+    have := hdec [] (Or.inl rfl)
     rw [List.append_nil] at this
     simp only [Bool.false_eq_true, if_false, hs, this, if_true]
 
@@ -126,9 +126,9 @@ theorem closed_ne_pad {seen : List String} {n : Expr} (h : n.closed seen = true)
 
 /-! ### the relations `consistent` checks, statement by statement -/
 
-theorem rel_readBytes {C : Codecs} {env : Env} {pad : Nat} {b : Blk} {f : String} {n : Expr} {r : List UStmt}
-    (h : relationsHold C env pad (.readBytes b f n :: r) = true) (hn : n ≠ .pad) :
-    (∃ bs, env.get f = some (.b bs) ∧ evalEnv env n = some bs.length) ∧ relationsHold C env pad r = true := by
+theorem rel_readBytes {C : Codecs} {env : Env} {plen pad : Nat} {b : Blk} {f : String} {n : Expr} {r : List UStmt}
+    (h : relationsHold C env plen pad (.readBytes b f n :: r) = true) (hn : n ≠ .pad) :
+    (∃ bs, env.get f = some (.b bs) ∧ evalEnv env n = some bs.length) ∧ relationsHold C env plen pad r = true := by
   unfold relationsHold at h
   rw [Bool.and_eq_true] at h
   refine ⟨?_, h.2⟩
@@ -139,9 +139,9 @@ theorem rel_readBytes {C : Codecs} {env : Env} {pad : Nat} {b : Blk} {f : String
     exact ⟨bs, by assumption, by simpa using h1⟩
   · cases h1
 
-theorem rel_readArr {C : Codecs} {env : Env} {pad : Nat} {b : Blk} {f : String} {n : Nat} {r : List UStmt}
-    (h : relationsHold C env pad (.readArr b f n :: r) = true) :
-    (∃ bs, env.get f = some (.b bs) ∧ n = bs.length) ∧ relationsHold C env pad r = true := by
+theorem rel_readArr {C : Codecs} {env : Env} {plen pad : Nat} {b : Blk} {f : String} {n : Nat} {r : List UStmt}
+    (h : relationsHold C env plen pad (.readArr b f n :: r) = true) :
+    (∃ bs, env.get f = some (.b bs) ∧ n = bs.length) ∧ relationsHold C env plen pad r = true := by
   unfold relationsHold at h
   rw [Bool.and_eq_true] at h
   refine ⟨?_, h.2⟩
@@ -152,10 +152,10 @@ theorem rel_readArr {C : Codecs} {env : Env} {pad : Nat} {b : Blk} {f : String} 
                                  exact this.symm⟩
   · cases h1
 
-theorem rel_readSub {C : Codecs} {env : Env} {pad : Nat} {b : Blk} {f t : String} {win : Option Nat}
+theorem rel_readSub {C : Codecs} {env : Env} {plen pad : Nat} {b : Blk} {f t : String} {win : Option Nat}
     {x y z : Bool} {r : List UStmt}
-    (h : relationsHold C env pad (.readSub b f t win x y z :: r) = true) :
-    (∃ v, env.get f = some (.t v) ∧ tupOk C t v = true) ∧ relationsHold C env pad r = true := by
+    (h : relationsHold C env plen pad (.readSub b f t win x y z :: r) = true) :
+    (∃ v, env.get f = some (.t v) ∧ tupOk C t v = true) ∧ relationsHold C env plen pad r = true := by
   unfold relationsHold at h
   rw [Bool.and_eq_true] at h
   refine ⟨?_, h.2⟩
@@ -265,11 +265,11 @@ def NoFire (hp hd : Bool) (P D : Bytes) : Prop := (hp = true ∧ P ≠ []) ∨ (
 
 /-! ### a guard in front of a read cannot fail -/
 
-theorem guard_passes {C : Codecs} {T : String → Prop} (hC : LawfulCodecs C T) (env' : Env) (hp hd : Bool)
+theorem guard_passes {C : Codecs} {T : String → Prop} (hC : LawfulCodecs C T) (env' : Env) (plen : Nat) (hp hd : Bool)
     (b : Blk) (e : Expr) (r : List UStmt) :
     ∀ (u : List Slot) (pos : UPos) (seen : List String) (s : UState) (pad : Nat),
       layoutU r = some u → okU hp hd pos seen r = true → guardFits b e r = true →
-      relationsHold C env' pad r = true →
+      relationsHold C env' plen pad r = true →
       (∀ sl ∈ u, SlotFit C T env' sl) →
       Inv C env' pos s.P s.D s.offset u → Agree seen s.env env' →
       ∃ n, evalExpr s e = some n ∧ s.offset + n ≤ (s.blk b).length := by
@@ -386,23 +386,85 @@ theorem guard_passes {C : Codecs} {T : String → Prop} (hC : LawfulCodecs C T) 
     · cases hl
     all_goals assumption
 
+/-! ### the AndX stanza -/
+
+/-- the state after the AndX stanza ran on a parameter stream that starts with the four AndX bytes -/
+def afterAndX (s : UState) (a b c d : UInt8) (rest : Bytes) : UState :=
+  { s with P := rest, env := s.env.set andxField (andxVal a b c d) }
+
+/-- on a parameter stream that starts with four bytes the stanza (and the early returns in front of it,
+    which test a non-empty stream) does nothing but store the AndX block and cut it off -/
+theorem go_andx_prefix (C : Codecs) (a b c d : UInt8) (rest : Bytes) :
+    ∀ (stmts body : List UStmt) (s : UState), splitAndX stmts = some body → s.P = a :: b :: c :: d :: rest →
+      runU.go C s stmts = runU.go C (afterAndX s a b c d rest) body := by
+  intro stmts
+  induction stmts using splitAndX.induct with
+  | case1 dd r ih =>
+    intro body s hs hP
+    rw [splitAndX] at hs
+    have hst : runUStmt C s (.retIfEmpty true dd) = .next s := by
+      rw [runUStmt, hP]; simp
+    rw [go_next r hst]
+    exact ih body s hs hP
+  | case2 r =>
+    intro body s hs hP
+    rw [splitAndX] at hs
+    injection hs with hs
+    subst hs
+    have h1 : runUStmt C s .readAndX = .next { s with env := s.env.set andxField (andxVal a b c d) } := by
+      rw [runUStmt, hP]
+    have h2 : runUStmt C { s with env := s.env.set andxField (andxVal a b c d) } (.resliceP 4) =
+        .next (afterAndX s a b c d rest) := by
+      rw [runUStmt]
+      have : sliceFrom s.P 4 = .ok rest := by rw [hP]; simp [sliceFrom]
+      simp only [this, liftO, afterAndX]
+    rw [go_next2 r h1 h2]
+  | case3 stmts h1 h2 =>
+    intro body s hs
+    rw [splitAndX] at hs
+    · cases hs
+    all_goals assumption
+
+/-- the relations `consistent` checks do not see the stanza -/
+theorem relationsHold_splitAndX (C : Codecs) (env : Env) (plen : Nat) :
+    ∀ (stmts body : List UStmt) (pad : Nat), splitAndX stmts = some body →
+      relationsHold C env plen pad stmts = relationsHold C env plen pad body := by
+  intro stmts
+  induction stmts using splitAndX.induct with
+  | case1 dd r ih =>
+    intro body pad hs
+    rw [splitAndX] at hs
+    have : relationsHold C env plen pad (.retIfEmpty true dd :: r) = relationsHold C env plen pad r := by simp [relationsHold]
+    rw [this]; exact ih body pad hs
+  | case2 r =>
+    intro body pad hs
+    rw [splitAndX] at hs
+    injection hs with hs
+    subst hs
+    simp [relationsHold]
+  | case3 stmts h1 h2 =>
+    intro body pad hs
+    rw [splitAndX] at hs
+    · cases hs
+    all_goals assumption
+
 /-! ### the unmarshal program reads back what the layout encodes -/
 
-theorem runU_go_layout {C : Codecs} {T : String → Prop} (hC : LawfulCodecs C T) (env' : Env) (hp hd : Bool)
+theorem runU_go_layout {C : Codecs} {T : String → Prop} (hC : LawfulCodecs C T) (env' : Env) (plen : Nat) (hp hd : Bool)
     (stmts : List UStmt) :
     ∀ (u : List Slot) (pos : UPos) (seen : List String) (s : UState) (pad : Nat),
       layoutU stmts = some u → okU hp hd pos seen stmts = true →
-      relationsHold C env' pad stmts = true →
+      relationsHold C env' plen pad stmts = true →
       (∀ sl ∈ u, SlotFit C T env' sl) →
       (∀ b, restOnlyLast (u.filter (·.blk == b)) = true) →
       Inv C env' pos s.P s.D s.offset u → Agree seen s.env env' →
-      ∃ d, runU.go C s stmts = .ok d ∧
+      ∃ d, runU.go C s stmts = .ok d ∧ (∀ g ∈ seen, d.get g = env'.get g) ∧
         (NoFire hp hd s.P s.D → ∀ g, (g ∈ seen ∨ g ∈ u.map Slot.field) → d.get g = env'.get g) := by
   induction stmts using layoutU.induct with
   | case1 =>
     intro u pos seen s pad hl _ _ _ _ _ hag
     simp only [layoutU, Option.some.injEq] at hl; subst hl
-    refine ⟨s.env, go_nil C s, fun _ g hg => ?_⟩
+    refine ⟨s.env, go_nil C s, fun g hg => hag g hg, fun _ g hg => ?_⟩
     rcases hg with hg | hg
     · exact hag g hg
     · simp at hg
@@ -410,10 +472,10 @@ theorem runU_go_layout {C : Codecs} {T : String → Prop} (hC : LawfulCodecs C T
     intro u pos seen s pad hl hok hrel hfit hrest hinv hag
     simp only [layoutU] at hl
     simp only [okU, Bool.and_eq_true] at hok
-    have hrel' : relationsHold C env' pad r = true := by simpa [relationsHold] using hrel
+    have hrel' : relationsHold C env' plen pad r = true := by simpa [relationsHold] using hrel
     by_cases hfire : ((!p || s.P.isEmpty) && (!d || s.D.isEmpty)) = true
     · have hst : runUStmt C s (.retIfEmpty p d) = .ret := by rw [runUStmt, if_pos hfire]
-      refine ⟨s.env, go_ret r hst, fun hnf => ?_⟩
+      refine ⟨s.env, go_ret r hst, fun g hg => hag g hg, fun hnf => ?_⟩
       exfalso
       obtain ⟨⟨hp1, hd1⟩, _⟩ := hok
       simp only [Bool.and_eq_true, Bool.or_eq_true, Bool.not_eq_true', List.isEmpty_iff] at hfire
@@ -437,7 +499,7 @@ theorem runU_go_layout {C : Codecs} {T : String → Prop} (hC : LawfulCodecs C T
     intro u pos seen s pad hl hok hrel hfit hrest hinv hag
     simp only [layoutU] at hl
     simp only [okU] at hok
-    have hrel' : relationsHold C env' pad r = true := by simpa [relationsHold] using hrel
+    have hrel' : relationsHold C env' plen pad r = true := by simpa [relationsHold] using hrel
     have hst : runUStmt C s .resetOffset = .next { s with offset := 0 } := by rw [runUStmt]
     rw [go_next r hst]
     exact ih u pos.reset seen _ pad hl hok hrel' hfit hrest hinv.reset hag
@@ -445,8 +507,8 @@ theorem runU_go_layout {C : Codecs} {T : String → Prop} (hC : LawfulCodecs C T
     intro u pos seen s pad hl hok hrel hfit hrest hinv hag
     simp only [layoutU] at hl
     simp only [okU, Bool.and_eq_true] at hok
-    have hrel' : relationsHold C env' pad r = true := by simpa [relationsHold] using hrel
-    obtain ⟨n, hn, hle⟩ := guard_passes hC env' hp hd b e r u pos seen s pad hl hok.2 hok.1 hrel' hfit hinv hag
+    have hrel' : relationsHold C env' plen pad r = true := by simpa [relationsHold] using hrel
+    obtain ⟨n, hn, hle⟩ := guard_passes hC env' plen hp hd b e r u pos seen s pad hl hok.2 hok.1 hrel' hfit hinv hag
     have hst : runUStmt C s (.guard b e) = .next s := by
       rw [runUStmt, hn]; simp only []; rw [if_neg (by omega)]
     rw [go_next r hst]
@@ -456,7 +518,7 @@ theorem runU_go_layout {C : Codecs} {T : String → Prop} (hC : LawfulCodecs C T
     simp only [layoutU, if_true, Option.map_eq_some_iff] at hl
     obtain ⟨u', hl', rfl⟩ := hl
     simp only [okU, Bool.and_eq_true] at hok
-    have hrel' : relationsHold C env' pad r = true := by simpa [relationsHold] using hrel
+    have hrel' : relationsHold C env' plen pad r = true := by simpa [relationsHold] using hrel
     obtain ⟨x, hx, hlt⟩ := hfit (.int b n e f) (List.mem_cons_self ..)
     have hsb : slotBytes C env' (.int b n e f) = intBytes n e x := by simp [slotBytes, hx]
     obtain ⟨pre, hblk, hoff⟩ := hinv.at (sl := .int b n e f) hok.1
@@ -466,17 +528,18 @@ theorem runU_go_layout {C : Codecs} {T : String → Prop} (hC : LawfulCodecs C T
     have h2 := step_advance C { s with env := s.env.set f (.n x) } (.lit n) n rfl
     have hinv' := hinv.step (sl := .int b n e f) hok.1
     rw [hsb, intBytes_length] at hinv'
-    obtain ⟨d, hd, hagree⟩ := ih u' (pos.read b) (f :: seen)
+    obtain ⟨d, hd, hseen, hagree⟩ := ih u' (pos.read b) (f :: seen)
       { s with env := s.env.set f (.n x), offset := s.offset + n } pad hl' hok.2 hrel'
       (fun sl h => hfit sl (List.mem_cons_of_mem _ h)) (restOnlyLast_tail hrest) hinv' (hag.set f (.n x) hx)
-    exact ⟨d, by rw [go_next2 r h1 h2]; exact hd, fun hnf g hg => hagree hnf g (mem_shift hg)⟩
+    exact ⟨d, by rw [go_next2 r h1 h2]; exact hd, fun g hg => hseen g (List.mem_cons_of_mem _ hg),
+      fun hnf g hg => hagree hnf g (mem_shift hg)⟩
   | case6 b w e f n r hne => intro u pos seen s pad hl; simp [layoutU, hne] at hl
   | case7 b e f n r ih =>
     intro u pos seen s pad hl hok hrel hfit hrest hinv hag
     simp only [layoutU, if_true, Option.map_eq_some_iff] at hl
     obtain ⟨u', hl', rfl⟩ := hl
     simp only [okU, Bool.and_eq_true] at hok
-    have hrel' : relationsHold C env' pad r = true := by simpa [relationsHold] using hrel
+    have hrel' : relationsHold C env' plen pad r = true := by simpa [relationsHold] using hrel
     obtain ⟨x, hx, hlt⟩ := hfit (.int b n e f) (List.mem_cons_self ..)
     have hsb : slotBytes C env' (.int b n e f) = intBytes n e x := by simp [slotBytes, hx]
     obtain ⟨pre, hblk, hoff⟩ := hinv.at (sl := .int b n e f) hok.1
@@ -486,17 +549,18 @@ theorem runU_go_layout {C : Codecs} {T : String → Prop} (hC : LawfulCodecs C T
     have h2 := step_advance C { s with env := s.env.set f (.n x) } (.lit n) n rfl
     have hinv' := hinv.step (sl := .int b n e f) hok.1
     rw [hsb, intBytes_length] at hinv'
-    obtain ⟨d, hd, hagree⟩ := ih u' (pos.read b) (f :: seen)
+    obtain ⟨d, hd, hseen, hagree⟩ := ih u' (pos.read b) (f :: seen)
       { s with env := s.env.set f (.n x), offset := s.offset + n } pad hl' hok.2 hrel'
       (fun sl h => hfit sl (List.mem_cons_of_mem _ h)) (restOnlyLast_tail hrest) hinv' (hag.set f (.n x) hx)
-    exact ⟨d, by rw [go_next2 r h1 h2]; exact hd, fun hnf g hg => hagree hnf g (mem_shift hg)⟩
+    exact ⟨d, by rw [go_next2 r h1 h2]; exact hd, fun g hg => hseen g (List.mem_cons_of_mem _ hg),
+      fun hnf g hg => hagree hnf g (mem_shift hg)⟩
   | case8 b w e f n r hne => intro u pos seen s pad hl; simp [layoutU, hne] at hl
   | case9 b f r ih =>
     intro u pos seen s pad hl hok hrel hfit hrest hinv hag
     simp only [layoutU, Option.map_eq_some_iff] at hl
     obtain ⟨u', hl', rfl⟩ := hl
     simp only [okU, Bool.and_eq_true] at hok
-    have hrel' : relationsHold C env' pad r = true := by simpa [relationsHold] using hrel
+    have hrel' : relationsHold C env' plen pad r = true := by simpa [relationsHold] using hrel
     obtain ⟨x, hx, hlt⟩ := hfit (.u8 b f) (List.mem_cons_self ..)
     have hsb : slotBytes C env' (.u8 b f) = [UInt8.ofNat x] := by simp [slotBytes, hx]
     obtain ⟨pre, hblk, hoff⟩ := hinv.at (sl := .u8 b f) hok.1
@@ -506,17 +570,18 @@ theorem runU_go_layout {C : Codecs} {T : String → Prop} (hC : LawfulCodecs C T
     have h2 := step_advance C { s with env := s.env.set f (.n x) } (.lit 1) 1 rfl
     have hinv' := hinv.step (sl := .u8 b f) hok.1
     rw [hsb] at hinv'
-    obtain ⟨d, hd, hagree⟩ := ih u' (pos.read b) (f :: seen)
+    obtain ⟨d, hd, hseen, hagree⟩ := ih u' (pos.read b) (f :: seen)
       { s with env := s.env.set f (.n x), offset := s.offset + 1 } pad hl' hok.2 hrel'
       (fun sl h => hfit sl (List.mem_cons_of_mem _ h)) (restOnlyLast_tail hrest) hinv' (hag.set f (.n x) hx)
-    exact ⟨d, by rw [go_next2 r h1 h2]; exact hd, fun hnf g hg => hagree hnf g (mem_shift hg)⟩
+    exact ⟨d, by rw [go_next2 r h1 h2]; exact hd, fun g hg => hseen g (List.mem_cons_of_mem _ hg),
+      fun hnf g hg => hagree hnf g (mem_shift hg)⟩
   | case10 b f m r ih =>
     intro u pos seen s pad hl hok hrel hfit hrest hinv hag
     simp only [layoutU, if_true, Option.map_eq_some_iff] at hl
     obtain ⟨u', hl', rfl⟩ := hl
     simp only [okU, Bool.and_eq_true] at hok
     obtain ⟨⟨bs, hget, heval⟩, hrel1⟩ := rel_readBytes hrel (closed_ne_pad hok.1.2)
-    have hrel' : relationsHold C env' pad r = true := by simpa [relationsHold] using hrel1
+    have hrel' : relationsHold C env' plen pad r = true := by simpa [relationsHold] using hrel1
     have hsb : slotBytes C env' (.bytes b f (some m)) = bs := by simp [slotBytes, hget]
     obtain ⟨pre, hblk, hoff⟩ := hinv.at (sl := .bytes b f (some m)) hok.1.1
     rw [hsb] at hblk
@@ -528,17 +593,18 @@ theorem runU_go_layout {C : Codecs} {T : String → Prop} (hC : LawfulCodecs C T
     have h2 := step_advance C { s with env := s.env.set f (.b bs) } m bs.length hm'
     have hinv' := hinv.step (sl := .bytes b f (some m)) hok.1.1
     rw [hsb] at hinv'
-    obtain ⟨d, hd, hagree⟩ := ih u' (pos.read b) (f :: seen)
+    obtain ⟨d, hd, hseen, hagree⟩ := ih u' (pos.read b) (f :: seen)
       { s with env := s.env.set f (.b bs), offset := s.offset + bs.length } pad hl' hok.2 hrel'
       (fun sl h => hfit sl (List.mem_cons_of_mem _ h)) (restOnlyLast_tail hrest) hinv' hag'
-    exact ⟨d, by rw [go_next2 r h1 h2]; exact hd, fun hnf g hg => hagree hnf g (mem_shift hg)⟩
+    exact ⟨d, by rw [go_next2 r h1 h2]; exact hd, fun g hg => hseen g (List.mem_cons_of_mem _ hg),
+      fun hnf g hg => hagree hnf g (mem_shift hg)⟩
   | case11 b f n m r hne => intro u pos seen s pad hl; simp [layoutU, hne] at hl
   | case12 b g r ih =>
     intro u pos seen s pad hl hok hrel hfit hrest hinv hag
     simp only [layoutU, if_true, Option.map_eq_some_iff] at hl
     obtain ⟨u', hl', rfl⟩ := hl
     simp only [okU, Bool.and_eq_true] at hok
-    have hrel' : relationsHold C env' pad r = true := by simpa [relationsHold] using hrel
+    have hrel' : relationsHold C env' plen pad r = true := by simpa [relationsHold] using hrel
     obtain ⟨bs, hget⟩ := hfit (.bytes b g none) (List.mem_cons_self ..)
     have hsb : slotBytes C env' (.bytes b g none) = bs := by simp [slotBytes, hget]
     obtain ⟨pre, hblk, hoff⟩ := hinv.at (sl := .bytes b g none) hok.1
@@ -555,10 +621,11 @@ theorem runU_go_layout {C : Codecs} {T : String → Prop} (hC : LawfulCodecs C T
       (by simp [evalExpr, Env.get_set_self])
     have hinv' := hinv.step (sl := .bytes b g none) hok.1
     rw [hsb] at hinv'
-    obtain ⟨d, hd, hagree⟩ := ih u' (pos.read b) (g :: seen)
+    obtain ⟨d, hd, hseen, hagree⟩ := ih u' (pos.read b) (g :: seen)
       { s with env := s.env.set g (.b bs), offset := s.offset + bs.length } pad hl' hok.2 hrel'
       (fun sl h => hfit sl (List.mem_cons_of_mem _ h)) (restOnlyLast_tail hrest) hinv' (hag.set g (.b bs) hget)
-    exact ⟨d, by rw [go_next2 r h1 h2]; exact hd, fun hnf g hg => hagree hnf g (mem_shift hg)⟩
+    exact ⟨d, by rw [go_next2 r h1 h2]; exact hd, fun g hg => hseen g (List.mem_cons_of_mem _ hg),
+      fun hnf g hg => hagree hnf g (mem_shift hg)⟩
   | case13 b f g r hne => intro u pos seen s pad hl; simp [layoutU, hne] at hl
   | case14 b f m r ih =>
     intro u pos seen s pad hl hok hrel hfit hrest hinv hag
@@ -566,7 +633,7 @@ theorem runU_go_layout {C : Codecs} {T : String → Prop} (hC : LawfulCodecs C T
     obtain ⟨u', hl', rfl⟩ := hl
     simp only [okU, Bool.and_eq_true] at hok
     obtain ⟨⟨bs, hget, hm⟩, hrel1⟩ := rel_readArr hrel
-    have hrel' : relationsHold C env' pad r = true := by simpa [relationsHold] using hrel1
+    have hrel' : relationsHold C env' plen pad r = true := by simpa [relationsHold] using hrel1
     have hsb : slotBytes C env' (.arr b f) = bs := by simp [slotBytes, hget]
     obtain ⟨pre, hblk, hoff⟩ := hinv.at (sl := .arr b f) hok.1
     rw [hsb] at hblk
@@ -574,10 +641,11 @@ theorem runU_go_layout {C : Codecs} {T : String → Prop} (hC : LawfulCodecs C T
     have h2 := step_advance C { s with env := s.env.set f (.b bs) } (.lit m) m rfl
     have hinv' := hinv.step (sl := .arr b f) hok.1
     rw [hsb, ← hm] at hinv'
-    obtain ⟨d, hd, hagree⟩ := ih u' (pos.read b) (f :: seen)
+    obtain ⟨d, hd, hseen, hagree⟩ := ih u' (pos.read b) (f :: seen)
       { s with env := s.env.set f (.b bs), offset := s.offset + m } pad hl' hok.2 hrel'
       (fun sl h => hfit sl (List.mem_cons_of_mem _ h)) (restOnlyLast_tail hrest) hinv' (hag.set f (.b bs) hget)
-    exact ⟨d, by rw [go_next2 r h1 h2]; exact hd, fun hnf g hg => hagree hnf g (mem_shift hg)⟩
+    exact ⟨d, by rw [go_next2 r h1 h2]; exact hd, fun g hg => hseen g (List.mem_cons_of_mem _ hg),
+      fun hnf g hg => hagree hnf g (mem_shift hg)⟩
   | case15 b f n m r hne => intro u pos seen s pad hl; simp [layoutU, hne] at hl
   | case16 b f t win r ih =>
     intro u pos seen s pad hl hok hrel hfit hrest hinv hag
@@ -585,14 +653,21 @@ theorem runU_go_layout {C : Codecs} {T : String → Prop} (hC : LawfulCodecs C T
     obtain ⟨u', hl', rfl⟩ := hl
     simp only [okU, Bool.and_eq_true] at hok
     obtain ⟨⟨v2, hget2, htup⟩, hrel1⟩ := rel_readSub hrel
-    have hrel' : relationsHold C env' pad r = true := by simpa [relationsHold] using hrel1
+    have hrel' : relationsHold C env' plen pad r = true := by simpa [relationsHold] using hrel1
     obtain ⟨v, bs, hget, henc, hT⟩ := hfit (.sub b f t win) (List.mem_cons_self ..)
     have hv : v2 = v := by rw [hget] at hget2; injection hget2 with h; injection h with h; exact h.symm
     subst hv
     have hsb : slotBytes C env' (.sub b f t win) = bs := by simp [slotBytes, hget, henc]
     obtain ⟨pre, hblk, hoff⟩ := hinv.at (sl := .sub b f t win) hok.1.1
     rw [hsb] at hblk
-    have hdec := hC.rt t v2 bs v2 hT henc htup
+    have hdec : ∀ suffix, suffix = [] ∨ win = none → C.dec t (bs ++ suffix) = .ok (v2, bs.length) := by
+      intro suffix hs
+      refine hC.rt t v2 bs v2 hT henc htup suffix ?_
+      rcases hs with hs | hs
+      · exact Or.inl hs
+      · subst hs
+        right
+        simpa using hok.1.2
     have hwin : ∀ n, win = some n → n = bs.length := by
       intro n hn
       subst hn
@@ -602,10 +677,11 @@ theorem runU_go_layout {C : Codecs} {T : String → Prop} (hC : LawfulCodecs C T
     have h2 := step_advanceRead C { s with env := s.env.set f (.t v2), bytesRead := bs.length }
     have hinv' := hinv.step (sl := .sub b f t win) hok.1.1
     rw [hsb] at hinv'
-    obtain ⟨d, hd, hagree⟩ := ih u' (pos.read b) (f :: seen)
+    obtain ⟨d, hd, hseen, hagree⟩ := ih u' (pos.read b) (f :: seen)
       { s with env := s.env.set f (.t v2), bytesRead := bs.length, offset := s.offset + bs.length } pad hl' hok.2 hrel'
       (fun sl h => hfit sl (List.mem_cons_of_mem _ h)) (restOnlyLast_tail hrest) hinv' (hag.set f (.t v2) hget)
-    exact ⟨d, by rw [go_next2 r h1 h2]; exact hd, fun hnf g hg => hagree hnf g (mem_shift hg)⟩
+    exact ⟨d, by rw [go_next2 r h1 h2]; exact hd, fun g hg => hseen g (List.mem_cons_of_mem _ hg),
+      fun hnf g hg => hagree hnf g (mem_shift hg)⟩
   | case17 head tail h1 h2 h3 h4 h5 h6 h7 h8 h9 h10 =>
     intro u pos seen s pad hl
     rw [layoutU] at hl
